@@ -160,9 +160,12 @@ SplitPair(ev) == \E r \in Names(ev) \cup {"x", "y", "z"} : ("$p" \o r) \in Names
 Accepts(ev) == \* does this entry point accept the model at all?
    CASE ev.entry \in {"milp", "auto"} -> TRUE
      [] ev.entry = "real_microlp" -> ev.sense # "sat" /\ \A i \in 1..NV(ev) : ev.vars[i].kind \in {"real", "nnreal"}
-     [] ev.entry = "simplex" -> ev.sense # "sat" /\ \A i \in 1..NV(ev) : ev.vars[i].kind \in {"real", "nnreal"} /\ ev.vars[i].name \notin ReservedNames(ev) /\ ~SplitPair(ev)
+     [] ev.entry = "simplex" -> ev.sense # "sat" /\ \A i \in 1..NV(ev) : ev.vars[i].kind \in {"real", "nnreal"} 
      [] ev.entry \in {"clarabel", "text_clarabel"} -> \A i \in 1..NV(ev) : ev.vars[i].kind \in {"real", "nnreal"}
 SimplexBased(ev) == ev.entry \notin {"clarabel", "text_clarabel"}
+\* the tableau entry MAY refuse a model whose variables are named like its own columns (it does, with a
+\* plain error); an answer it gives for such a model is judged like any other
+MayRefuse(ev) == ev.entry = "simplex" /\ (SplitPair(ev) \/ \E i \in 1..NV(ev) : ev.vars[i].name \in ReservedNames(ev))
 \* for a satisfy model only feasibility is judged
 ValueOk(ev, v) ==
    IF ev.sense = "sat" THEN TRUE
@@ -181,7 +184,7 @@ VerdictProblems(ev) ==
           ELSE IF ev.err.kind = "Unbounded" THEN
                (IF vd.st = "unb" THEN {} ELSE IF vd.st = "inf" THEN {"unbounded reported for an infeasible model"}
                 ELSE {"unbounded reported for a model with a finite optimum"})
-          ELSE IF SimplexBased(ev) THEN {"no verdict: error kind " \o ev.err.kind \o " on a small model (true verdict " \o vd.st \o ")"}
+          ELSE IF SimplexBased(ev) /\ ~MayRefuse(ev) THEN {"no verdict: error kind " \o ev.err.kind \o " on a small model (true verdict " \o vd.st \o ")"}
           ELSE {}
      [] OTHER -> {}
 
